@@ -643,20 +643,19 @@ class SimulateOde(DeterministicOde):
 
         dX=np.array(dX)   # convert to numpy array so we can interpolate between timepoints
 
-        dims=dX.shape         # Get dimensions of data (timepoints x n_trans)
-        n_trans=dims[1]
+        n_trans=self.num_events
+        if dX.size == 0:      # no event occurred at all
+            return np.zeros((len(targetTime)-1, n_trans))
 
         # empty matrix to receive scaled data = (new timepoints x n_trans)
         # minus one because we are looking at jumps which occur betwen timepoints
         # (e.g. 2 timepoints =1 jump, 10 timepoints =9)
         X_out=np.zeros((len(targetTime)-1, n_trans))
 
-        # if exact, each point corresponds to a transitions and has weight 1.
+        # t[0] is the initial time, t[k] the time of the k-th recorded step whose per
+        # transition counts are dX[k-1] (0 or 1 in exact mode).
         for i in range(n_trans):
-            if exact:
-                hist, bin_edges=np.histogram(t, bins=targetTime)
-            else:
-                hist, bin_edges=np.histogram(t[1:], bins=targetTime, weights=dX[:,i])
+            hist, bin_edges=np.histogram(t[1:], bins=targetTime, weights=dX[:,i])
             X_out[:,i]=hist            
 
         return X_out
